@@ -117,7 +117,9 @@ def main():
                 ('vatin', 'validate', ['BE0428759497']), ('iban', 'validate', ['NO9386011117947']), ('cz.bankaccount', 'info', ['34278-0727558021/0100']),
                 ('nz.bankaccount', 'info', ['01-902-0068389-00']), ('cfi', 'info', ['ELNUFR']), ('at.postleitzahl', 'info', ['5090']),
                 ('eu.nace', 'info', ['62.01']), ('us.ein', 'get_campus', ['04-2103594']), ('my.nric', 'get_birth_place', ['770305-02-1234']),
-                ('cn.ric', 'get_birth_place', ['360426199101010071']), ('eu.vat', 'validate', ['XI980780684']), ('at.tin', 'info', ['59-119/9013'])]
+                ('cn.ric', 'get_birth_place', ['360426199101010071']), ('eu.vat', 'validate', ['XI980780684']), ('at.tin', 'info', ['59-119/9013']),
+                # an IBAN that only the NATIONAL validator rejects (bad CCC check digits): a lookup that answers too early shows
+                ('iban', 'validate', ['ES2121000418450200051331'])]
     for i in range(nst):
         k = 1 + (i % 3)
         sel = rnd.sample(firstuse, k)
@@ -128,7 +130,7 @@ def main():
         raise run.MachineryError('schedule generator produced %d schedules (expected 70)\n%s' % (len(scheds), rs.out[-1000:]))
     chk.cov['states'] += rs.distinct
     chk.cov['transitions'] += rs.generated
-    sched_calls = firstuse[:4] if quick else firstuse
+    sched_calls = firstuse[:4] + [firstuse[18]] if quick else firstuse
     for call in sched_calls:
         for s in (scheds if not quick else scheds[::3]):
             jobs.append({'kind': 'threads', 'n': 2, 'calls': [{'mod': call[0], 'fn': call[1], 'args': call[2]}], 'schedule': s})
@@ -143,10 +145,18 @@ def main():
         raise run.MachineryError('line schedule generator produced %d schedules\n%s' % (len(lscheds), rl.out[-1000:]))
     chk.cov['states'] += rl.distinct
     chk.cov['transitions'] += rl.generated
-    line_calls = [firstuse[0], firstuse[1], firstuse[4], firstuse[16]] if quick else firstuse
+    line_calls = [firstuse[0], firstuse[1], firstuse[4], firstuse[16], firstuse[18]] if quick else firstuse
+    # quick: every schedule with a single preemption (one thread stopped after k lines, the other runs to completion), a sample of the rest
+    single = [x for x in lscheds if sum(1 for a, b in zip(x, x[1:]) if a != b) <= 2]
+    others = [x for x in lscheds if x not in single]
     for call in line_calls:
-        for sline in (lscheds[::4] if quick else lscheds):
+        for sline in (single + others[::6] if quick else lscheds):
             jobs.append({'kind': 'threads', 'n': 2, 'calls': [{'mod': call[0], 'fn': call[1], 'args': call[2]}], 'schedule': None, 'lines': sline})
+    # ---- import windows: the second thread makes the same first call while the first thread's import of the country module
+    # has run the module body but not yet set the attribute on the package (see findings/import_race_demo.py)
+    for call, gate in ((firstuse[16], 'stdnum.gb.vat'), (firstuse[6], 'stdnum.be.vat'), (('eu.vat', 'validate', ['BE0428759497']), 'stdnum.be.vat'),
+                       (firstuse[18], 'stdnum.es.iban'), (firstuse[7], 'stdnum.no.iban')):
+        jobs.append({'kind': 'gate', 'calls': [{'mod': call[0], 'fn': call[1], 'args': call[2]}], 'gate': gate})
     # ---- run the jobs, each in its own interpreter
     with ThreadPoolExecutor(max_workers=16) as ex:
         outs = list(ex.map(run_runner, jobs))
@@ -195,7 +205,7 @@ def main():
                       rule='H1 events: every call of every TLC-generated history (8 calls over 23 call classes, returned containers mutated in place), of '
                            '16-thread barrier-released first-use rounds and of replayed 2-thread schedules (all 70 interleavings of 4 hook points each), '
                            'paired with the same call in a pristine interpreter; A1-A4 events: every hook event of those processes',
-                      extra={'histories': len(hists), 'thread_rounds': nst, 'schedules_replayed': len([j for j in jobs if j.get('schedule')]), 'line_schedules_replayed': len([j for j in jobs if j.get('lines')]),
+                      extra={'import_window_jobs': len([j for j in jobs if j['kind'] == 'gate']), 'import_windows_reached': len([o for o in outs if o.get('gate_reached')]), 'histories': len(hists), 'thread_rounds': nst, 'schedules_replayed': len([j for j in jobs if j.get('schedule')]), 'line_schedules_replayed': len([j for j in jobs if j.get('lines')]),
                              'line_steps_granted': sum(o.get('line_steps', 0) for o in outs),
                              'distinct_calls_with_fresh_oracle': len(keys), 'h1_events': len(hev), 'hook_events': len(rev),
                              'schedule_timeouts': nsched_timeouts})
